@@ -125,19 +125,31 @@ def main(argv=None):
     for sig, lst in sorted(by_sig.items()):
         for r, c in lst[:3]:
             batch.append((sig, r, c))
-    replayed = []
-    if batch:
-        bin_ = os.path.join(tmpdir, "batch.json")
-        bout = os.path.join(tmpdir, "batch_out.json")
-        json.dump({"prop": prop, "candidates": [c for _, _, c in batch]}, open(bin_, "w"), default=str)
+    replayed = [None] * len(batch)
+
+    def run_batch(idxs, extra_env, tag):
+        nonlocal harness_error
+        if not idxs:
+            return
+        bin_ = os.path.join(tmpdir, f"batch_{tag}.json")
+        bout = os.path.join(tmpdir, f"batch_{tag}_out.json")
+        json.dump({"prop": prop, "candidates": [batch[i][2] for i in idxs]}, open(bin_, "w"), default=str)
         try:
             subprocess.run([sys.executable, "-m", "gbverif.replay", "--batch", bin_, bout], timeout=3600,
                            stdout=subprocess.DEVNULL, stderr=subprocess.DEVNULL,
-                           env=dict(os.environ, NUMBA_CACHE_DIR=os.path.join(tmpdir, "nb_replay")))
-            replayed = json.load(open(bout))
+                           env=dict(os.environ, NUMBA_CACHE_DIR=os.path.join(tmpdir, "nb_" + tag), **extra_env))
+            outs = json.load(open(bout))
         except Exception as e:      # noqa: BLE001
-            harness_error = f"replay subprocess failed: {type(e).__name__}: {e}"
-            replayed = [{"violates": False, "detail": "replay subprocess failed"}] * len(batch)
+            harness_error = (harness_error or "") + f" replay subprocess failed: {type(e).__name__}: {e}"
+            outs = [{"violates": False, "detail": "replay subprocess failed"}] * len(idxs)
+        for i, o in zip(idxs, outs):
+            replayed[i] = o
+    # out-of-bounds accesses are undefined behaviour in compiled numba code (no bounds checks): those candidates are
+    # replayed on the same real source under CPython (the kernels' own py_func), where the access raises IndexError
+    is_bounds = [c.get("kind") == "obligation" and any(str(l).startswith("bounds") for l in c.get("labels", [])) for _, _, c in batch]
+    run_batch([i for i, b in enumerate(is_bounds) if not b], {}, "replay")
+    run_batch([i for i, b in enumerate(is_bounds) if b], {"GBVERIF_PYFUNC": "1"}, "boundscheck")
+    replayed = [r or {"violates": False, "detail": "not replayed"} for r in replayed]
     known = load_known(prop)
     violations = []
     known_hits = {}
